@@ -227,24 +227,35 @@ func (i *Interpreter) createDirectorRequest(ctx *context.Context, dc *value.Dire
 	var backend *value.Backend
 	var err error
 
-	switch dc.Type {
-	case value.DIRECTORTYPE_RANDOM:
-		backend, err = i.directorBackendRandom(dc)
-	case value.DIRECTORTYPE_FALLBACK:
-		backend, err = i.directorBackendFallback(dc)
-	case value.DIRECTORTYPE_HASH:
-		backend, err = i.directorBackendHash(dc)
-	case value.DIRECTORTYPE_CLIENT:
-		backend, err = i.directorBackendClient(dc)
-	case value.DIRECTORTYPE_CHASH:
-		backend, err = i.directorBackendConsistentHash(dc)
-	default:
-		return nil, nil, exception.System("Unexpected director type '%s' provided", dc.Type)
+	// A backend of the director may be another director which is declared before,
+	// determine until the actual backend is found
+	for {
+		switch dc.Type {
+		case value.DIRECTORTYPE_RANDOM:
+			backend, err = i.directorBackendRandom(dc)
+		case value.DIRECTORTYPE_FALLBACK:
+			backend, err = i.directorBackendFallback(dc)
+		case value.DIRECTORTYPE_HASH:
+			backend, err = i.directorBackendHash(dc)
+		case value.DIRECTORTYPE_CLIENT:
+			backend, err = i.directorBackendClient(dc)
+		case value.DIRECTORTYPE_CHASH:
+			backend, err = i.directorBackendConsistentHash(dc)
+		default:
+			return nil, nil, exception.System("Unexpected director type '%s' provided", dc.Type)
+		}
+		if err != nil {
+			return nil, nil, errors.WithStack(err)
+		}
+		if backend.Director == nil {
+			break
+		}
+		dc = backend.Director
+	}
+	if backend.Value == nil {
+		return nil, nil, exception.System("Director %s could not determine the backend", dc.Name)
 	}
 
-	if err != nil {
-		return nil, nil, errors.WithStack(err)
-	}
 	req, err := i.createBackendRequest(ctx, backend)
 	if err != nil {
 		return nil, nil, errors.WithStack(err)
